@@ -228,6 +228,79 @@ class Real:
                 out.append("%s:%d:%d" % (i[0] if i else "?", classes.index(type(obj)), self.sargs_index(args, kwargs)))
         return out
 
+    def register_built(self, u, pairs, nL):
+        """register the universe, its law set and the links a builder created; `pairs` lists the
+        (v1, v2) entries in the order the builder is documented to create their links, and the
+        link of an entry is the first not-yet-registered link of v1 with exactly these ends"""
+        n = self.reg_v(u)
+        if u.laws is not None:
+            self.reg_w(u.laws)
+        for a, b in pairs:
+            for l in a.links:
+                vs = l.vertices
+                if id(l) not in self._lid and len(vs) == 2 and vs[0] is a and vs[1] is b:
+                    self.reg_l(l)
+                    break
+        self.scan_new_links()
+        return n
+
+    @staticmethod
+    def forced_randgraph(rgmod, count, cls, conn, ens, draws):
+        """run the real randgraph with the RNG answering exactly `draws` (one (r, sample) per vertex)"""
+        import random as _random
+        state = {"i": 0}
+
+        class Forced:
+            @staticmethod
+            def randint(a, b):
+                r = draws[state["i"]][0]
+                assert a <= r <= b, "draw outside randint range"
+                return r
+
+            @staticmethod
+            def sample(pop, k):
+                smp = draws[state["i"]][1]
+                state["i"] += 1
+                if k > len(pop) or k < 0:
+                    raise ValueError("Sample larger than population or is negative")
+                assert len(smp) == k, "sample size differs from what the code asked for (%d vs %d)" % (len(smp), k)
+                return [pop[j] for j in smp]
+
+        old = rgmod.random
+        rgmod.random = Forced
+        try:
+            return rgmod.randgraph(count, cls, conn, ens)
+        finally:
+            rgmod.random = old
+
+    @staticmethod
+    def logged_randgraph(rgmod, seed, count, cls, conn, ens):
+        """run the real randgraph under random.seed(seed), logging what the RNG answered"""
+        import random as _random
+        log = []
+
+        class Logging:
+            @staticmethod
+            def randint(a, b):
+                r = _random.randint(a, b)
+                log.append([r, None])
+                return r
+
+            @staticmethod
+            def sample(pop, k):
+                smp = _random.sample(pop, k)
+                log[-1][1] = [next(j for j, x in enumerate(pop) if x is y) for y in smp]
+                return smp
+
+        old = rgmod.random
+        rgmod.random = Logging
+        _random.seed(seed)
+        try:
+            u = rgmod.randgraph(count, cls, conn, ens)
+        finally:
+            rgmod.random = old
+        return u, log
+
     def vfilt(self, k):
         if k is None:
             return None
@@ -289,6 +362,8 @@ class Real:
             for k, val in vars(v).items():
                 if k.startswith("a") and k[1:].isdigit():
                     attrs.append("%s:%d" % (k[1:], self.valclass(val)))
+                elif k == "i" and type(val) is int:
+                    attrs.append("99:%d" % val)
             vs.append("V%d:%s l=[%s] u=[%s] m=[%s] w=%s a=[%s]" % (
                 i, VCLS_NAME[type(v)], links, unis, mem, laws, ",".join(attrs)))
         ls = []
@@ -478,6 +553,44 @@ class Real:
                   "dfsi": depthfirst.dfs_iterative}[op]
             r = fn(uni, start, attr, val)
             return "ok " + self.sv(r)
+        if op == "adjdict":
+            from edgegraph.builder import adjlist
+            adj = {}
+            if toks[2] != ".":
+                for r in toks[2].split(";"):
+                    k, vs = r.split(":")
+                    adj[self.pv(k)] = [self.pv(v) for v in vs.split(",") if v]
+            nL = len(self.L)
+            u = adjlist.load_adj_dict(adj, linktype=LCLS[toks[1]])
+            return "ok V%d" % self.register_built(u, [(k, v) for k, vs in adj.items() for v in vs], nL)
+        if op == "adjmat":
+            from edgegraph.builder import adjmatrix
+            vs = [] if toks[2] == "." else [self.pv(v) for v in toks[2].split(",")]
+            # arbitrary truthy / falsy cell values
+            truthy, falsy = [1, True, 2, "x", [0], 0.5], [0, False, "", [], None, 0.0]
+            matrix = []
+            if toks[3] != ".":
+                for i, r in enumerate(toks[3].split("/")):
+                    matrix.append([(truthy if ch == "1" else falsy)[(i + j) % 6] for j, ch in enumerate(r)])
+            nL = len(self.L)
+            u = adjmatrix.load_adj_matrix(matrix, vs, linktype=LCLS[toks[1]])
+            pairs = [(vs[i], vs[j]) for i, row in enumerate(matrix) for j, cell in enumerate(row) if cell]
+            return "ok V%d" % self.register_built(u, pairs, nL)
+        if op == "randgraph":
+            from edgegraph.builder import randgraph as rgmod
+            count = int(toks[1])
+            conn = None
+            if toks[3] != "-":
+                p_, q_ = toks[3].split("/")
+                conn = int(p_) / int(q_)
+            draws = [] if toks[5] == "." else [
+                (int(d.split(":")[0]), [int(x) for x in d.split(":")[1].split(",") if x]) for d in toks[5].split(";")]
+            u = self.forced_randgraph(rgmod, count, LCLS[toks[2]], conn, toks[4] == "1", draws)
+            members = sorted(u.vertices, key=lambda v: v.i)
+            for v in members:
+                self.reg_v(v)
+            pairs = [(members[i], members[j]) for i, (_r, smp) in enumerate(draws) for j in smp]
+            return "ok V%d" % self.register_built(u, pairs, len(self.L))
         if op in ("tsnew", "ssnew"):
             classes = self.TS if op == "tsnew" else self.SS
             args, kwargs = SARGS[int(toks[2][1:])]
